@@ -151,11 +151,44 @@ def _interim_response(code_i):
     return len(resp) == 2 and by_url.get('http://h.example/one') in (m1, interim + m1) and by_url.get('http://h.example/two') == m2
 
 
+def _tempfile_fault(k, cuts):
+    """The k-th write to a temporary block file (--warc-tempdir full) fails during the SECOND of two exchanges: that exchange then
+    fails - it is not recorded with a hole in its block."""
+    k = pick(list(range(1, 13)), k - 1)
+    m1 = b'HTTP/1.1 200 OK\r\nContent-Length: 2\r\n\r\nab'
+    m2 = b'HTTP/1.1 200 OK\r\nContent-Length: 6\r\n\r\nsecond'
+    fs = fakefs.FS()
+    rec = warcenv.new_recorder(fs)
+    warcenv.http_exchange(rec, 'http://h.example/one', m1, [])
+    warcenv.PyTemp.fail_write_at = warcenv.PyTemp.writes + k
+    failed = False
+    try:
+        warcenv.http_exchange(rec, 'http://h.example/two', m2, cuts)
+    except OSError:
+        failed = True
+    injected = warcenv.PyTemp.writes >= warcenv.PyTemp.fail_write_at > 0
+    warcenv.PyTemp.fail_write_at = 0
+    hit('failed' if failed else ('no-fault' if not injected else 'swallowed'))
+    records = warcenv.read_records(fs.files.get('out.warc'), False)
+    if records is None:
+        return False
+    for r in records:
+        if warcenv.field(r, 'WARC-Target-URI') == 'http://h.example/two' and warcenv.field(r, 'WARC-Type') == 'response' and r['block'] != m2:
+            return False                                # a response record that does not hold what the server sent
+    return failed or not injected                       # an injected failure must not pass silently
+
+
 def _fx(**kw):
     return {k: str(v) for k, v in kw.items()}
 
 
 HARNESSES = [
+    H('tempfile_fault', '_tempfile_fault', 'k: int, cuts: List[int]', pre={'quick': ['1 <= k <= 12 and len(cuts) == 0'], 'thorough': ['1 <= k <= 12 and len(cuts) <= 2']},
+      parts=[{'tag': 'k%d' % lo, 'pre': ['%d <= k <= %d' % (lo, lo + 3)]} for lo in (1, 5, 9)], timeout={'quick': 250, 'thorough': 600},
+      samples=[(3, []), (6, [1]), (12, [])], need=['failed'],
+      funcs=['wpull/warc/recorder.py:HTTPWARCRecorderSession.response_data', 'wpull/protocol/abstract/stream.py:DataEventDispatcher.notify_read'],
+      doc='the k-th write (1..12) to a temporary block file fails during the second of two exchanges, (thorough: under symbolic read cuts): the '
+          'exchange fails; no response record is written whose block differs from what the server sent'),
     H('interim_response', '_interim_response', 'code_i: int', pre=['0 <= code_i <= 2'], timeout={'quick': 90, 'thorough': 90}, finding='D15', samples=[],
       funcs=['wpull/protocol/http/client.py:Session.start', 'wpull/protocol/http/stream.py:is_no_body'],
       doc='an interim 1xx response before the final one on a persistent connection: each URL\'s response record holds the server\'s final '
